@@ -23,6 +23,9 @@ Constructs added to py2lean_num (everything else raises `base.Unsupported`)
     * `a[mask] = scalar` -> `npMaskFill`, `a[mask] = array` -> `npMaskSet`, `y[r, c, :] = …` -> `wr3` / `wr3` of a constant row
     * `if p is None: p = e` for an optional int parameter (`Option Int`) -> `let p : Int := p.getD e` (shadows the parameter)
 The combinators live in the hand-written, kernel-independent `Hdc/PyNpS.lean`.
+
+Instrumentation mode (py2lean_num.SafeMixin, kernels declared `safe=True`: gammafit, gammastd -> Hdc/Gen/SafeGammafit.lean,
+SafeGammastd.lean): see py2lean_num.py; `callees` lists the translated kernels whose instrumented versions are called.
 """
 import ast
 import copy
@@ -255,7 +258,7 @@ class S(base.K):
                 terms.append(x)
         for p, ty, _ in info["params"]:
             terms.append(self.arg_term(ty, actual[p]))
-        return f"(Gen.NumKernels.{call.func.id} " + " ".join(terms) + ")"
+        return "(" + self.callee_term(call.func.id, " ".join(terms)) + ")"
 
     def closure_of(self, fn, info, actual):
         """the callee's `func = lambda a: body` with the callee's parameters replaced by the actual arguments"""
@@ -492,12 +495,14 @@ class S(base.K):
 KERNELS = [
     dict(name="gammafit", file=STATS, func="gammafit", translator=S,
          params=[("x", "arrnum")], consts={"0.4": "F.c04"}, extra=GAMX, scope=["F", "digamma", "xtol", "rtol"],
-         ret=None, rty="α × α", uses="[IntCast α]", imports=["Hdc.PyNpS", "Hdc.Gen.NumBrentq"]),
+         ret=None, rty="α × α", uses="[IntCast α]", imports=["Hdc.PyNpS", "Hdc.Gen.NumBrentq"],
+         safe=True, callees=["brentq"], safe_imports=["Hdc.Gen.SafeBrentq"]),
     dict(name="gammastd", file=STATS, func="gammastd", translator=S,
          params=[("x", "arrnum"), ("nodata", "num"), ("cal_start", "int"), ("cal_stop", "int"), ("a", "num"), ("b", "num")],
          defaults={"a": 0, "b": 0},
          consts={"0.9": "F.c09"}, extra=GAMX, scope=["F", "digamma", "xtol", "rtol"],
-         ret=None, rty="Array α", uses="[IntCast α]", imports=["Hdc.PyNpS", "Hdc.Gen.NumGammafit"]),
+         ret=None, rty="Array α", uses="[IntCast α]", imports=["Hdc.PyNpS", "Hdc.Gen.NumGammafit"],
+         safe=True, callees=["gammafit"], safe_imports=["Hdc.Gen.SafeGammafit"]),
     dict(name="gammastd_grp", module="NumGammastdGrp", file=STATS, func="gammastd_grp", translator=S,
          params=[("xx", "arrnum"), ("groups", "arrint"), ("num_groups", "int"), ("nodata", "num"), ("cal_indices", "arrint2"),
                  ("yy", "arrnum")],
